@@ -77,8 +77,8 @@ Proof.
   - apply (ssem_call Bf _ _ _ b _ _ _ Eb) in H. destruct H as (mo & fid & _ & _ & H).
     destruct (den (w_glob W) e) as [x|err]; destruct H as [-> _]; [|reflexivity].
     destruct b; reflexivity.
-  - apply (ssem_ucall Bf _ _ _ _ _ _ Eb) in H. destruct H as (body & mo & fid & _ & _ & _ & _ & _ & H).
-    destruct (den (w_glob W) e) as [x|err]; [destruct H as (-> & _)|destruct H as [-> _]]; reflexivity.
+  - apply (ssem_ucall Bf _ _ _ _ _ _ Eb) in H. destruct H as (n' & _ & H).
+    destruct (ucall_sem_facts Bf n' W nm [e] W' res H) as (body & _ & Hg & _). exact Hg.
 Qed.
 Print Assumptions C04_builtin_call_changes_no_global.
 
@@ -114,14 +114,12 @@ Print Assumptions C04_compiled_call_restores_the_caller.
 (* ---- user functions ---- *)
 (* a call of a user function, as the compiled code runs it, changes no global, writes nothing, reads no
    input (C04_builtin_call_changes_no_global covers the globals for every callee) *)
-Theorem C04_user_call_changes_nothing : forall Bf n W nm e W' res,
-  bop_of_name nm = None ->
-  ssem Bf n W (NCall (NName nm) [e]) = Some (W', res) ->
+Theorem C04_user_call_changes_nothing : forall Bf n W nm args W' res,
+  ucall_sem Bf n W nm args = Some (W', res) ->
   w_glob W' = w_glob W /\ w_out W' = w_out W /\ w_in W' = w_in W.
 Proof.
-  intros Bf n W nm e W' res Hb H. apply (ssem_ucall Bf _ _ _ _ _ _ Hb) in H.
-  destruct H as (body & mo & fid & _ & _ & _ & _ & _ & H).
-  destruct (den (w_glob W) e) as [x|err]; [destruct H as (-> & _)|destruct H as [-> _]]; repeat split.
+  intros Bf n W nm args W' res H.
+  destruct (ucall_sem_facts Bf n W nm args W' res H) as (body & _ & Hg & Ho & Hi & _). auto.
 Qed.
 Print Assumptions C04_user_call_changes_nothing.
 
